@@ -48,6 +48,7 @@ func tagSSIParser(doc *Parser, start *Token, arguments *Parser) (INodeTag, *Erro
 			}
 			if err != nil {
 				return nil, (&Error{
+					Filename:  doc.template.name,
 					Sender:    "tag:ssi",
 					OrigError: err,
 				}).updateFromTokenIfNeeded(doc.template, fileToken)
